@@ -2,6 +2,7 @@ import Bw.Json
 import Bw.Merge
 import Bw.Flags
 import Bw.TreeWalk
+import Bw.ListReport
 import Bw.Glob
 import Bw.Walk
 import Bw.Lemmas.WalkSim
@@ -161,7 +162,11 @@ def handlePipeline (j : Json) : Json :=
       let exit := match out with
         | .ok _ => Merge.exitMerged merged
         | .err _ => 1
-      Json.mkObj [("changes", changesJson changes), ("ctx", Json.mkObj [("files", ctxJ)]),
+      -- what `blockwatch list` prints (`Bw.ListReport.report`: per file the entries after the stable sort by line)
+      let listJ := Json.mkObj ((ListReport.report ctx).map (fun (p, es) => (String.ofList p, Json.arr (es.map (fun e =>
+        Json.mkObj [("name", tj e.name), ("line", e.line), ("column", e.column), ("is_content_modified", e.contentModified),
+                    ("attributes", attrsJson e.attrs)])).toArray)))
+      Json.mkObj [("changes", changesJson changes), ("ctx", Json.mkObj [("files", ctxJ)]), ("list", listJ),
         ("detected", Json.arr ((detected ctx en dis).map Json.str).toArray),
         ("ai_requests", Json.arr ((aiRequests re ctx).map tj).toArray),
         ("run", runJ), ("exit", exit)]
